@@ -1,0 +1,24 @@
+//go:build verif
+
+package util
+
+import "sync/atomic"
+
+// Verification hook (build tag "verif" only): a yield point that lets an external
+// cooperative scheduler decide which goroutine performs the next atomic step.
+
+type verifYieldFn struct{ f func(point string) }
+
+var verifYield atomic.Value // verifYieldFn
+
+// VerifSetYield installs (or, with nil, removes) the function called at every yield point.
+func VerifSetYield(f func(point string)) {
+	verifYield.Store(verifYieldFn{f: f})
+}
+
+// VerifYield is called immediately before instrumented atomic accesses.
+func VerifYield(point string) {
+	if v, ok := verifYield.Load().(verifYieldFn); ok && v.f != nil {
+		v.f(point)
+	}
+}
